@@ -2,6 +2,7 @@ import Qryn.Proofs.InternalEngines
 import Qryn.Proofs.InternalOpt
 import Qryn.Proofs.InternalJsonPath
 import Qryn.Proofs.InternalParams
+import Qryn.Proofs.InternalCompose
 import Qryn.Gen.InternalPlanner
 import Qryn.Gen.InternalParams
 import Qryn.Gen.PlannerGlobals
@@ -214,9 +215,6 @@ theorem stage_meets_logql_byWithout (E : Env V) (isBy : Bool) (names : List Byte
 theorem stage_meets_logql_comparison (N : NumOps V) (op : CmpOp) (v : V) (es : List (Entry V)) :
     es.filterMap (comparisonFn N op v) = compareStage N op v es := comparison_meets N op v es
 
-/-- the series identity the engine groups by (the fingerprint) coincides with the label set on these entries -/
-def FpFaithful (es : List (Entry V)) : Prop := ∀ a ∈ es, ∀ b ∈ es, (a.fp = b.fp ↔ a.labels = b.labels)
-
 /-- **range aggregation** (`rate`, `count_over_time`, `bytes_rate`, `bytes_over_time`): for any batching of
     proper entries whose fingerprints identify their label sets and whose series fit under the cap, the bucket
     arrays yield exactly one sample per series and non-empty window `[start + i·d, start + (i+1)·d)`, `i < n`,
@@ -281,6 +279,134 @@ theorem logPlan_meets_logql (E : Env V) (h0 : E.o.isNum [] = false) (c : Read.Ct
       (evalPlan E c p bs.flatten).flatten.filter (fun e => e.fp == f) := by
   rw [batching_invariant_logPlan E c p hlog bs f, (stages_meet_logql E h0 p.stages bs.flatten hp).1]
   simp [evalPlan, hlog]
+
+/-- **a whole metric query plan is its LogQL reading.** For every plan `internal_planner.Plan` builds around a range
+    aggregation — any sequence of the modelled stages (line filter, label filter, `json`, `json` with parameters,
+    `logfmt`, `logfmt` with parameters, `label_format`, `line_format`, `drop`, `unwrap`), then `by/without` and the
+    range aggregation (`rate`, `count_over_time`, `bytes_rate`, `bytes_over_time`; over an unwrapped value `rate`,
+    `sum/avg/min/max/first/last_over_time`), an optional comparison, an optional vector aggregation
+    (`sum/min/max/avg/count` with `by/without`) with its optional comparison — and for **every batching** of proper
+    upstream entries, the messages the engine sends are exactly `LogQL.Stages.evalPlan` of the flat entry list: the
+    definition applied stage by stage. Hypotheses (`MetricOk`, stated on the specification side): the function is
+    one the engine has a case for, the series reaching each aggregator fit under the cap, and fingerprints identify
+    label sets there (`metricOk_of_noCollision` derives that from the hash-collision hypothesis).
+    Proof: `stages_meet_logql` (induction over the stage list) then the per-stage theorems in plan order. -/
+theorem metricPlan_meets_logql (E : Env V) (h0 : E.o.isNum [] = false) (c : Read.Ctx) (p : Plan V)
+    (hm : p.agg.isSome = true) (bs : Batches V) (hp : ∀ e ∈ bs.flatten, e.err = none)
+    (hok : MetricOk E c p bs.flatten) :
+    runPlan E c p bs = evalPlan E c p bs.flatten := by
+  obtain ⟨⟨k, dur⟩, hk⟩ := Option.isSome_iff_exists.mp hm
+  obtain ⟨hsup, hcap, hf, hcapV, hfV⟩ := hok
+  have hst := stages_meet_logql E h0 p.stages bs.flatten hp
+  have hflat : (runStages E p.stages bs).flatten = stages E p.stages bs.flatten := by
+    rw [batching_invariant_stages]; exact hst.1
+  have hprop : ∀ e ∈ (runStages E p.stages bs).flatten, e.err = none := by
+    rw [batching_invariant_stages]; exact hst.2
+  have hsp : ∀ e ∈ stages E p.stages bs.flatten, e.err = none := by
+    rw [← hst.1]; exact hst.2
+  -- the range aggregation
+  have hrange : (match k with
+      | .range fn => run E.num (aggOps E.num c.maxSeries (Grid.of c.fromNs c.toNs dur) (lraFn E.num dur fn)) [] (runStages E p.stages bs)
+      | .unwrap fn => run E.num (aggOps E.num c.maxSeries (Grid.of c.fromNs c.toNs dur) (unwrapAggFn E.num dur fn)) []
+          (runByWithout E p.aggBy (runStages E p.stages bs))) =
+      (match k with
+      | .range fn => if rangeCounts fn then aggregate (·.labels) (Grid.of c.fromNs c.toNs dur) (rangeValue E.num dur fn) (stages E p.stages bs.flatten) else []
+      | .unwrap fn => if unwrapCounts fn then aggregate (·.labels) (Grid.of c.fromNs c.toNs dur) (unwrapValue E.num dur fn)
+          (optByWithout E p.aggBy (stages E p.stages bs.flatten)) else []) := by
+    cases k with
+    | range fn =>
+      have hfn : rangeCounts fn = true := by simpa [aggSupported, hk] using hsup
+      simp only [aggInput, hk] at hcap hf
+      simp only [hfn, if_true]
+      rw [stage_meets_logql_rangeAgg E.num c.maxSeries _ dur fn hfn _ hprop (by rw [hflat]; exact hcap) (by rw [hflat]; exact hf), hflat]
+    | unwrap fn =>
+      have hfn : unwrapCounts fn = true := by simpa [aggSupported, hk] using hsup
+      simp only [aggInput, hk] at hcap hf
+      have hbw := runByWithout_flatten E p.aggBy _ hprop
+      rw [hflat] at hbw
+      have hprop' : ∀ e ∈ (runByWithout E p.aggBy (runStages E p.stages bs)).flatten, e.err = none := by
+        rw [hbw]
+        intro e he
+        cases hb : p.aggBy with
+        | none => rw [hb] at he; exact hsp e he
+        | some bw =>
+          rw [hb] at he
+          simp only [optByWithout, byWithoutStage, List.mem_map] at he
+          obtain ⟨x, hx, rfl⟩ := he
+          exact hsp x hx
+      simp only [hfn, if_true]
+      rw [stage_meets_logql_unwrapAgg E.num c.maxSeries _ dur fn hfn _ hprop' (by rw [hbw]; exact hcap) (by rw [hbw]; exact hf), hbw]
+  cases hv : p.vec with
+  | none =>
+    simp only [runPlan, evalPlan, hk, hv, runCmp_eq]
+    cases k <;> simp only [] at hrange ⊢ <;> rw [hrange]
+  | some fbc =>
+    obtain ⟨fn, bw, cmp⟩ := fbc
+    -- the stream reaching the vector aggregation, on the specification side
+    have hin : vecInput E c p bs.flatten = optByWithout E bw (rangeResult E c p bs.flatten).flatten := by
+      simp only [vecInput, hv]
+    rw [hin] at hcapV hfV
+    have hres : ∀ e ∈ (rangeResult E c p bs.flatten).flatten, e.err = none :=
+      fun e he => (rangeResult_mem E c p bs.flatten hm e he).1
+    have hbw := runByWithout_flatten E bw (rangeResult E c p bs.flatten) hres
+    have hprop' : ∀ e ∈ (runByWithout E bw (rangeResult E c p bs.flatten)).flatten, e.err = none := by
+      rw [hbw]
+      intro e he
+      cases bw with
+      | none => exact hres e he
+      | some b =>
+        simp only [optByWithout, byWithoutStage, List.mem_map] at he
+        obtain ⟨x, hx, rfl⟩ := he
+        exact hres x hx
+    have hvec := stage_meets_logql_vectorAgg E.num c.maxSeries (Grid.of c.fromNs c.toNs dur) fn
+      (runByWithout E bw (rangeResult E c p bs.flatten)) hprop' (by rw [hbw]; exact hcapV) (by rw [hbw]; exact hfV)
+    rw [hbw] at hvec
+    have hrr : rangeResult E c p bs.flatten = optCompare E.num p.aggCmp (match k with
+      | .range fn => if rangeCounts fn then aggregate (·.labels) (Grid.of c.fromNs c.toNs dur) (rangeValue E.num dur fn) (stages E p.stages bs.flatten) else []
+      | .unwrap fn => if unwrapCounts fn then aggregate (·.labels) (Grid.of c.fromNs c.toNs dur) (unwrapValue E.num dur fn)
+          (optByWithout E p.aggBy (stages E p.stages bs.flatten)) else []) := by
+      simp only [rangeResult, evalPlan, hk]
+      cases k <;> rfl
+    simp only [runPlan, evalPlan, hk, hv, runCmp_eq]
+    cases k <;> simp only [] at hrange hrr ⊢ <;> rw [hrange, ← hrr, hvec]
+
+/-- **ONE composition theorem: every plan `internal_planner.Plan` can build is its LogQL reading, whatever the
+    batching.** Stages in the list: line filter, label filter, `json`, `json` with any parameters, `logfmt`, `logfmt`
+    with parameters, `label_format`, `line_format`, `drop`, `unwrap`; then either limit + response optimizer (log
+    query) or by/without → range aggregation → comparison → by/without → vector aggregation → comparison (metric
+    query; each part optional as in the plan). For every batching `bs` of proper upstream entries, every series of
+    what the engine sends is that series of `evalPlan` on the flat list. (For metric plans the messages themselves
+    are equal: `metricPlan_meets_logql`; for log plans the response optimizer regroups entries by series, so only
+    the order across series is left open.) Not in the list: `absent_over_time`, `topk`, `quantile_over_time`,
+    `stddev/stdvar` (the engine answers NotSupported or never counts), the matrix post-processors. -/
+theorem plan_meets_logql (E : Env V) (h0 : E.o.isNum [] = false) (c : Read.Ctx) (p : Plan V) (bs : Batches V)
+    (hp : ∀ e ∈ bs.flatten, e.err = none) (hok : p.agg.isSome = true → MetricOk E c p bs.flatten) (f : UInt64) :
+    (runPlan E c p bs).flatten.filter (fun e => e.fp == f) =
+      (evalPlan E c p bs.flatten).flatten.filter (fun e => e.fp == f) := by
+  cases hagg : p.agg with
+  | none => exact logPlan_meets_logql E h0 c p hagg bs hp f
+  | some kd =>
+    have hm : p.agg.isSome = true := by rw [hagg]; rfl
+    rw [metricPlan_meets_logql E h0 c p hm bs hp (hok hm)]
+
+/-- the result of a plan does not depend on how the upstream cut the entries into messages: two batchings of the
+    same entries give, series by series, the same output (corollary of `plan_meets_logql`) -/
+theorem plan_batching_independent (E : Env V) (h0 : E.o.isNum [] = false) (c : Read.Ctx) (p : Plan V) (bs bs' : Batches V)
+    (hflat : bs.flatten = bs'.flatten) (hp : ∀ e ∈ bs.flatten, e.err = none)
+    (hok : p.agg.isSome = true → MetricOk E c p bs.flatten) (f : UInt64) :
+    (runPlan E c p bs).flatten.filter (fun e => e.fp == f) = (runPlan E c p bs').flatten.filter (fun e => e.fp == f) := by
+  rw [plan_meets_logql E h0 c p bs hp hok f, plan_meets_logql E h0 c p bs' (hflat ▸ hp) (hflat ▸ hok) f, hflat]
+
+/-- the hash-collision hypothesis instead of `FpFaithful`: for a plan whose in-process stages contain one that
+    rewrites labels (true of every split at `json`/`logfmt`), `MetricOk` follows from: supported function, series
+    under the cap, and no two different label sets reaching an aggregator have the same fingerprint -/
+theorem metricOk_from_noCollision (E : Env V) (c : Read.Ctx) (p : Plan V) (es : List (Entry V)) (hm : p.agg.isSome = true)
+    (hr : ∃ s ∈ p.stages, s.relabels = true) (hsup : aggSupported p = true)
+    (hcap : (firstBy (fun e : Entry V => e.fp) (aggInput E p es)).length ≤ c.maxSeries)
+    (hcapVec : (firstBy (fun e : Entry V => e.fp) (vecInput E c p es)).length ≤ c.maxSeries)
+    (hnc : NoCollision E ((aggInput E p es).map (·.labels)))
+    (hncVec : NoCollision E ((vecInput E c p es).map (·.labels))) : MetricOk E c p es :=
+  metricOk_of_noCollision E c p es hm hr hsup hcap hcapVec hnc hncVec
 
 /-! ## 3. the two engines agree on the stages both implement, at every split point -/
 
@@ -498,6 +624,31 @@ example : (run intOps (aggOps intOps 2000 ⟨0, 60, 2⟩ (lraFn intOps 60 .count
 example : getBreakpoint [.line, .jsonParams, .jsonNoParams, .labelFilter] false = 2 := by decide
 example : SeriesTableOk ⟨0, 1, 0, false, 1, false, "g", "s", "t", "t"⟩ ⟨[], [], []⟩ :=
   ⟨by simp, by simp, by simp⟩
+/-- the hypotheses of the composition theorem are satisfiable: a plan `| json | json p="a", p="b"` then
+    `count_over_time[60]` then `sum`, two lines whose keys come in different order — one series `p=2` and one `p=1`
+    (document order decides), fingerprints identify the label sets -/
+def exEnv : Env Int where
+  o := { reMatch := fun _ _ => false, jsonLabels := fun _ => [], isNum := fun _ => false, numCmp := fun _ _ _ => false, lower := id }
+  num := intOps
+  jsonDecode m := if m = [1] then .obj (.cons [98] (.raw [49]) (.cons [97] (.raw [50]) .nil))
+                  else .obj (.cons [97] (.raw [50]) (.cons [98] (.raw [49]) .nil))
+  logfmtDecode _ := []
+  tpl _ _ := none
+  hash b := b.foldl (fun h c => h * 31 + c.toUInt64) 7
+
+def exPlan (vec : Option (VecFn × Option ByWithout × Option (CmpOp × Int))) : Plan Int :=
+  ⟨[.parser .json, .parser (.jsonParams [([112], [.key [97]]), ([112], [.key [98]])])], some (.range .countOverTime, 60), none, none, vec⟩
+
+def exE1 : Entry Int := ⟨10, 7, [([120], [121])], [1], 0, none⟩
+def exE2 : Entry Int := ⟨20, 7, [([120], [121])], [2], 0, none⟩
+def exInput : List (Entry Int) := [exE1, exE2]
+
+example : MetricOk exEnv ⟨0, 120, 0, 3000, 2000⟩ (exPlan (some (.sum, none, none))) exInput := by
+  refine ⟨by decide +kernel, by decide +kernel, ?_, by decide +kernel, ?_⟩ <;> unfold FpFaithful <;> decide +kernel
+
+example : ((runPlan exEnv ⟨0, 120, 0, 3000, 2000⟩ (exPlan none) [[exE1], [], [exE2]]).flatten.map
+    (fun e => (e.labels.get [112], e.val))) = [([50], 1), ([49], 1)] := by decide +kernel
+
 end examples
 
 end Qryn.C09
